@@ -5,6 +5,7 @@ package main
 
 import (
 	"bufio"
+	"bytes"
 	"crypto"
 	"crypto/ecdsa"
 	"crypto/ed25519"
@@ -911,6 +912,24 @@ func (e *lifeEnv) step(pre *lifeState, st *lStep, t int, want *lPost) lifeOutcom
 		if cerr != nil || string(anch.OperationRequest) != string(canon) {
 			fail("anchored-form", b.level, "anchored bytes are not the canonical encoding of the request", string(canon), string(anch.OperationRequest), b.req)
 			continue
+		}
+
+		// ... also when the request arrives in another serialization (indented, as a proxy or a log may leave it): the anchored
+		// bytes are the canonical encoding of the request, not the bytes that arrived
+		{
+			var pretty bytes.Buffer
+
+			if json.Indent(&pretty, b.req, " ", "\t") == nil {
+				if pop2, e := e.parser.ParseOperation(lifeNS, pretty.Bytes(), false); e == nil {
+					if a2, e2 := model.GetAnchoredOperation(pop2); e2 != nil || string(a2.OperationRequest) != string(canon) {
+						fail("anchored-form", b.level, "the request arrived indented: anchored bytes are not the canonical encoding of the request", string(canon), fmt.Sprint(e2, " ", a2), b.req)
+						continue
+					}
+				} else {
+					fail("request-rejected", b.level, "the same request, indented: "+e.Error(), "accepted", "rejected", pretty.Bytes())
+					continue
+				}
+			}
 		}
 
 		if anch.Type != mop.Type || anch.UniqueSuffix != mop.UniqueSuffix || digestJSON(anch.AnchorOrigin) != digestJSON(mop.AnchorOrigin) {
